@@ -747,7 +747,7 @@ func restoreCollection(co *CollectionOptions, storeFooter *Footer) (
 func removeFiles(dir string, fnames []string) error {
 	for _, fname := range fnames {
 		err := os.Remove(path.Join(dir, fname))
-		if err != nil {
+		if err != nil && !os.IsNotExist(err) {
 			return err
 		}
 	}
